@@ -987,6 +987,60 @@ func Run(r *common.Run) error {
 		`<presence><c xmlns="urn:b"/>  <x xmlns="urn:a"/></presence>`,
 		`<presence type="unavailable"><c xmlns="urn:b"/></presence>`,
 	}
+	// payload patterns whose name coincides with a stanza's own name or namespace: the exact
+	// names {jabber:client|server}message / presence, the stanza namespaces alone, the local
+	// names message / presence / iq alone — on empty stanzas (which go to the type wildcard,
+	// looked up with the EMPTY name) and on stanzas whose children really have those names
+	ownNames := []xml.Name{{}, {Space: c08.NSClient, Local: "message"}, {Space: c08.NSClient, Local: "presence"},
+		{Space: c08.NSServer, Local: "message"}, {Space: c08.NSClient}, {Space: c08.NSServer},
+		{Local: "message"}, {Local: "presence"}, {Local: "iq"}}
+	ownStanzas := []string{
+		`<message type="chat"/>`, `<message/>`, `<presence/>`, `<presence type="unavailable"></presence>`,
+		`<message type="chat"><message type="chat"/></message>`,
+		`<message type="chat"><presence/><x xmlns="urn:a"/></message>`,
+		`<presence><presence/><message xmlns="jabber:server"/></presence>`,
+		`<presence><iq/></presence>`,
+	}
+	ostep := r.Pick(5, 1)
+	for mask := 0; mask < 1<<len(ownNames); mask += ostep {
+		for si, sx := range ownStanzas {
+			if r.Quick() && (mask+si)%2 == 1 {
+				continue
+			}
+			kind, typ := "m", "chat"
+			switch {
+			case strings.HasPrefix(sx, "<presence type"):
+				kind, typ = "p", "unavailable"
+			case strings.HasPrefix(sx, "<presence"):
+				kind, typ = "p", ""
+			case strings.HasPrefix(sx, "<message/>"):
+				typ = "normal"
+			}
+			var ps []Pat
+			for i, nm := range ownNames {
+				if mask&(1<<i) != 0 {
+					ps = append(ps, Pat{Kind: kind, Typ: typ, Name: nm})
+				}
+			}
+			c.children(ps, sx, []int{9, 9, 9}, "own-names")
+		}
+	}
+	// the same names in the lookups of every kind
+	for _, kind := range []string{"i", "m", "p"} {
+		typ := typesOf[kind][0]
+		for mask := 0; mask < 1<<len(ownNames); mask += r.Pick(7, 1) {
+			var ps []Pat
+			for i, nm := range ownNames {
+				if mask&(1<<i) != 0 {
+					ps = append(ps, Pat{Kind: kind, Typ: typ, Name: nm})
+				}
+			}
+			for _, qn := range []xml.Name{{}, {Space: c08.NSClient, Local: "message"}, {Space: c08.NSServer, Local: "presence"}, {Space: "urn:a", Local: "iq"}} {
+				c.lookup(ps, kind, typ, qn, "own-names")
+			}
+		}
+	}
+
 	maxC := r.Pick(9, 12)
 	for _, s := range fixed {
 		for c1 := 0; c1 <= maxC; c1++ {
@@ -1141,6 +1195,13 @@ func Run(r *common.Run) error {
 			for _, p := range u {
 				if rnd.Chance(1, 4) {
 					ps = append(ps, p)
+				}
+			}
+		}
+		if rnd.Chance(1, 3) {
+			for _, nm := range ownNames[1:] {
+				if rnd.Chance(1, 3) {
+					ps = append(ps, Pat{Kind: kind, Typ: styp, Name: nm})
 				}
 			}
 		}
